@@ -93,6 +93,9 @@ class StaticWalk:
             sf = self.index.files.get(key)
             if sf is None:
                 res.count('rep.unknown_file')
+                res.violation('representation-names-no-stored-media-file',
+                              f'{url}: Representation id {rep.id!r} is not the name of a media file of stream {stream} '
+                              f'({sorted(n for d, n in self.index.files if d == stream)})', rp)
                 continue
             pd = period.duration if period.duration is not None else mpd_dur
             label = f'{url} rep {rep.id}'
